@@ -73,9 +73,9 @@ type ChildOutcome struct {
 }
 
 type Prop struct {
-	ID    string
-	Level string // exploration | fault_enumeration
-	Rule  string
+	ID          string
+	Level       string // exploration | fault_enumeration
+	Rule        string
 	Assumptions []string
 	// Gen returns the case list for (seed, tier); deterministic in its arguments.
 	Gen func(seed int64, tier string) []Scenario
@@ -88,7 +88,7 @@ type Prop struct {
 	// Parallel children (default 8).
 	Parallel int
 	// Batch size for non-solo scenarios (default 16).
-	Batch int
+	Batch      int
 	Exhaustive bool
 }
 
@@ -621,20 +621,20 @@ func CheckMain(propID, tier string, exe, raceExe, verifDir string) int {
 	ev := map[string]any{
 		"property_id": p.ID, "tier": tier, "seed": seed, "level": p.Level,
 		"coverage": map[string]any{
-			"evaluations":         len(scs) + subEvals,
-			"cases":               len(scs),
-			"distinct_nontrivial": nd,
-			"rule":                p.Rule,
-			"samples":             samples,
-			"exhaustive":          p.Exhaustive,
-			"held":                held,
-			"violated":            len(violations),
+			"evaluations":                        len(scs) + subEvals,
+			"cases":                              len(scs),
+			"distinct_nontrivial":                nd,
+			"rule":                               p.Rule,
+			"samples":                            samples,
+			"exhaustive":                         p.Exhaustive,
+			"held":                               held,
+			"violated":                           len(violations),
 			"violations_matching_known_findings": len(violations) - unlisted,
-			"inconclusive":        inconc,
-			"oracle_evaluations":  checks,
-			"events_observed":     events,
-			"cases_by_kind":       byKind,
-			"foreign_observations": capList(foreign, 30),
+			"inconclusive":                       inconc,
+			"oracle_evaluations":                 checks,
+			"events_observed":                    events,
+			"cases_by_kind":                      byKind,
+			"foreign_observations":               capList(foreign, 30),
 		},
 		"assumptions": p.Assumptions,
 		"wall_s":      time.Since(t0).Seconds(),
